@@ -9,7 +9,7 @@
 From Coq Require Import ZArith NArith QArith List Bool Lia.
 From NV Require Import Common.Outcome Text.CodecChars Text.IntText Text.Radix Text.Decimal Text.Hex Text.Utf8
   Text.IntFmt Text.CodecSpec Text.IntText_proofs Text.Radix_proofs Text.Decimal_proofs Text.Hex_proofs
-  Text.Utf8_proofs Text.IntFmt_proofs.
+  Text.Utf8_proofs Text.IntFmt_proofs Text.CodecDefects.
 Import ListNotations.
 Open Scope Z_scope.
 
@@ -127,6 +127,29 @@ Print Assumptions C16_hex_decode_case_insensitive.
 Theorem C16_utf8_roundtrip : forall s : str, Forall scalar s -> utf8_decode (utf8_encode s) = Ok s.
 Proof. exact utf8_roundtrip. Qed.
 Print Assumptions C16_utf8_roundtrip.
+
+(* utf8_decode succeeds only on well-formed UTF-8: what it returns is a string of scalar values whose encoding
+   is the input - overlong forms, surrogates, values above U+10FFFF, stray/missing continuation bytes are rejected *)
+Theorem C16_utf8_decode_sound : forall (bs : list N) (s : str), utf8_decode bs = Ok s ->
+  Forall scalar s /\ utf8_encode s = bs.
+Proof. exact utf8_decode_sound. Qed.
+Print Assumptions C16_utf8_decode_sound.
+
+(* and it is total: a string or a value error, never a panic *)
+Theorem C16_utf8_decode_total : forall bs : list N,
+  (exists s, utf8_decode bs = Ok s) \/ utf8_decode bs = Err EValue.
+Proof. exact utf8_decode_total. Qed.
+Print Assumptions C16_utf8_decode_total.
+
+Theorem C16_utf8_encode_bytes : forall s : str, Forall scalar s -> Forall (fun b => (b < 256)%N) (utf8_encode s).
+Proof. exact utf8_encode_bytes. Qed.
+Print Assumptions C16_utf8_encode_bytes.
+
+(* hex_encode writes two lower-case hex digits per byte *)
+Theorem C16_hex_encode_digits : forall bs : list N, Forall (fun b => (b < 256)%N) bs ->
+  length (hex_encode bs) = (2 * length bs)%nat /\ Forall is_hexdigit (hex_encode bs).
+Proof. exact hex_encode_digits. Qed.
+Print Assumptions C16_hex_encode_digits.
 
 (* chr and ord are inverse on scalar values; chr of anything else is a value error *)
 Theorem C16_chr_ord_inverse : forall c : N, scalar c ->
